@@ -69,6 +69,8 @@ Inductive expr :=
 | EErrIs (a : expr) (name : string)  (* a == ErrX: the error value itself, not something that wraps it *)
 | EErrorsIs (a : expr) (name : string) (* errors.Is(a, ErrX): sees through %w wrapping *)
 | EWrap (a : expr)                   (* fmt.Errorf("...%w...", a): a new error that wraps a (its text is not modelled) *)
+| ELenV (a : expr)                   (* len of a slice of struct values (a VTuple list) *)
+| EIndexV (a i : expr)               (* its i-th element *)
 | EStructLit (fs : list (string * expr))
 | EBuiltin (f : string) (args : list expr).
 
@@ -274,6 +276,13 @@ Fixpoint eval (e : env) (x : expr) {struct x} : eres :=
         match va with VNil => EV (VBool false) | VErr m => EV (VBool (String.eqb m n)) | _ => EStuck end)
   | EErrorsIs a n => ebind (eval e a) (fun va =>
         match va with VNil => EV (VBool false) | VErr m => EV (VBool (String.eqb (err_root m) n)) | _ => EStuck end)
+  | ELenV a => ebind (eval e a) (fun va =>
+        match va with VTuple l => EV (VInt (Z.of_nat (List.length l))) | _ => EStuck end)
+  | EIndexV a i => ebind (eval e a) (fun va => ebind (eval e i) (fun vi =>
+        match va, vi with
+        | VTuple l, VInt j => if (0 <=? j) && (j <? Z.of_nat (List.length l)) then EV (nth (Z.to_nat j) l VNil) else EPanic
+        | _, _ => EStuck
+        end))
   | EWrap a => ebind (eval e a) (fun va =>
         match va with VNil => EV (VErr "fmt.Errorf") | VErr m => EV (VErr (err_wrap m)) | _ => EStuck end)
   | EStructLit fs =>
